@@ -211,6 +211,21 @@ C13Idx == {<<>>, <<IE(Ni, Kb)>>, <<IE(Ni, Kb), IE(Nj, Kc)>>}
 C13P == {[key |-> k, val |-> 0, exp |-> x, sess |-> se, cid |-> c, pkey |-> pk, deltas |-> d, idx |-> ix] :
             k \in C13KeyClasses, x \in {NoExp, 0}, se \in C13Sess, c \in {""}, pk \in BOOLEAN,
             d \in C13Deltas, ix \in C13Idx}
+\* ... and optional fields that are PRESENT BUT EMPTY (OxiaDb.tla "Optional fields of a request"): the partition
+\* key present with the value "" (and with an odd value, "a/b") on sequence puts AND on ordinary puts, the client
+\* identity present with the value "", the expected version present with the value -1 / 0, the session present
+\* with the id 0 (live in the third set-up, dead otherwise) - multiplied with the key classes (incl. the empty
+\* key) and with the deltas absent / zero first / zero later / positive.  Admission looks at presence only, so
+\* every one of these with a positive first delta (or none) is logged and has to be applied with statuses.
+C13PkVals == {<<>>, Kab}
+C13OptDeltas == {<<>>, <<0>>, <<1>>, <<1, 0>>, <<1, 1>>}
+C13Opt == {[key |-> k, val |-> 0, exp |-> x, sess |-> se, cid |-> "", pkey |-> TRUE, pk |-> v, deltas |-> d, idx |-> <<>>] :
+              k \in C13KeyClasses, x \in {NoExp, -1, 0}, se \in {NoSess, 0}, v \in C13PkVals, d \in C13OptDeltas}
+          \cup {[key |-> k, val |-> 0, exp |-> NoExp, sess |-> NoSess, cid |-> "", cidp |-> TRUE, pkey |-> (v # 0),
+                 pk |-> IF v = 2 THEN Kab ELSE <<>>, deltas |-> d, idx |-> <<>>] :
+              k \in C13KeyClasses, v \in 0..2, d \in {<<>>, <<1>>}}
+\* (from the look-alike set-ups: the sequence puts with a present-but-empty partition key)
+C13SeqOpt == {[SeqPut(Ka, d) @@ [pk |-> <<>>] EXCEPT !.pkey = TRUE] : d \in {<<1>>, <<2, 1>>, <<1, 1, 1>>, <<0>>}}
 C13D == {[key |-> k, exp |-> x] : k \in C13KeyClasses \cup {SessKey(0)}, x \in {NoExp, -1, 0}}
 C13Bounds == {<<>>, Ka, Kaz, Kz, OxiaPrefix, KoxEnd}
 C13R == {[s |-> a, e |-> b] : a, b \in C13Bounds}
@@ -238,9 +253,9 @@ Requests ==
       [] Mode = "c16" -> {r \in ReqsOver(C16P, C16D, C16R, MaxOps) : ~SeqStateError(st, Stamp(r))}
       [] Mode = "c16big" -> {r \in ReqsOver(C16BigP, C16BigD, C16BigR, MaxOps) : ~SeqStateError(st, Stamp(r))}
       [] Mode = "c15" -> ReqsOver(C15P, C15D, C15R, MaxOps)
-      [] Mode = "c13" -> IF HasLookAlike THEN ReqsOver(C13Seq, {}, {}, 1)
+      [] Mode = "c13" -> IF HasLookAlike THEN ReqsOver(C13Seq \cup C13SeqOpt, {}, {}, 1)
                          ELSE IF HasHostileIdx THEN ReqsOver(C13HP, C13D, C13R, MaxOps)
-                         ELSE ReqsOver(C13P \cup C13HP, C13D, C13R, MaxOps)
+                         ELSE ReqsOver(C13P \cup C13HP \cup C13Opt, C13D, C13R, MaxOps)
       [] Mode = "c06" -> {r \in ReqsOver(C06P, C06D, C06R, MaxOps) : ~SeqStateError(st, Stamp(r))}
                          \cup {[NoReq EXCEPT !.puts = <<PlainPut(SessKey(n), -1, NoExp)>>]}
       [] Mode = "c06big" -> ReqsOver(C06P \cup BigP, C06D \cup BigD, C06BigR, 1)
@@ -340,6 +355,18 @@ Total == [][ (Stepped /\ Accepted /\ ~Cur.kf) =>
                /\ \A i \in 1..Len(Res.puts) : Res.puts[i].st \in Statuses
                /\ \A i \in 1..Len(Res.dels) : Res.dels[i] \in Statuses
                /\ \A i \in 1..Len(Res.rngs) : Res.rngs[i] = "OK" ]_mvars
+
+(* C13: admission and application agree on every request shape (OxiaDb.tla "Optional fields of a request").   *)
+(* AdmissionCoversApply: a request on which the sequence-key generator fails because of its content alone is   *)
+(* refused before it is logged (stated on every offered request, refused or not; with Total: whatever is not    *)
+(* refused gets statuses).  OptNeutral: the value of a present partition key and the presence of an empty      *)
+(* client identity are not interpreted - the request yields the results, notifications and records it yields   *)
+(* with these replaced by ordinary values (in particular "" is treated like "pk", never like "absent").        *)
+AdmissionCoversApply == [][ Stepped => (ContentError(st, Req) => ~WellFormed(Req)) ]_mvars
+OptNeutral == [][ (Stepped /\ Accepted /\ ~Cur.kf) =>
+    LET a == Apply(st, Req, Cur.off, Cur.ts)
+        b == Apply(st, NormOpt(Req), Cur.off, Cur.ts)
+    IN a.res = b.res /\ a.nf = b.nf /\ a.s = b.s /\ WellFormed(NormOpt(Req)) ]_mvars
 
 (* C13: secondary-index declarations are neutral and always applicable (OxiaDb.tla "Secondary-index          *)
 (* declarations") - whatever a put declares, the request yields the statuses, the records and the version    *)
